@@ -147,7 +147,7 @@ Definition filter_avail (w : world) (p : pod) (ranges : list (list range)) (repl
   else Some (node_subnets_by_ranges i ranges, false).
 
 Definition restrict_subnets (subnets : list subnet) (owned_subnets : option (list subnet)) : list subnet :=
-  match owned_subnets with Some os => match os with [] => subnets | _ => sn_inter subnets os end | None => subnets end.
+  match owned_subnets with Some os => sn_inter subnets os | None => subnets end.
 
 Definition filter_cont (w : world) (p : pod) (nodes : list str) (o : oracle) (fl : faults)
     (ranges : list (list range)) (owned_subnets : option (list subnet)) : world * fres :=
@@ -205,7 +205,8 @@ Lemma filter_section_unfold w p nodes o fl :
       let slots := by_key_ranges (w_ipam w) (pod_key p) rss in
       match missing_of slots rss with
       | [] => (w, FNodes (List.filter (node_ok w (owned_subnets_of (w_ipam w) (somes slots))) nodes))
-      | _ => filter_cont w p nodes o fl (missing_of slots rss) (Some (owned_subnets_of (w_ipam w) (somes slots)))
+      | _ => filter_cont w p nodes o fl (missing_of slots rss)
+               (match somes slots with [] => None | _ => Some (owned_subnets_of (w_ipam w) (somes slots)) end)
       end
   end.
 Proof. reflexivity. Qed.
@@ -774,12 +775,11 @@ Lemma bind_routable_l w p nodes o fl w1 l ns name uid node o2 fl2 w2 ips nip sn 
   Inv (w_ipam w) → filter_section w p nodes o fl = (w1, FNodes l) → In node l →
   w_lister w1 !! (ns, name) = Some pl → same_static p pl →
   (pd_ranges p = [] → key_single (w_ipam w) (pod_key p)) →
-  (pd_ranges p ≠ [] → owned_in_ranges (w_ipam w) p ≠ [] → owned_subnets_of (w_ipam w) (owned_in_ranges (w_ipam w) p) ≠ []) →
   bind_section true true w1 ns name uid node o2 fl2 = (w2, BOk ips) →
   w_nodes w !! node = Some nip → node_subnet (w_ipam w) nip = Some sn →
   ∀ x, x ∈ ips → ip_has_subnet (i_pools (w_ipam w2)) x sn = true.
 Proof.
-  intros HI Hf Hnode Hl Hst Hsingle Hcommon Hb Hnip Hsn.
+  intros HI Hf Hnode Hl Hst Hsingle Hb Hnip Hsn.
   pose proof (filter_inv _ _ _ _ _ _ _ HI Hf) as HI1.
   apply bind_ok_inv in Hb as (p' & slots & wa & wb & Hl' & Hs & _ & Ha & Hloop & Hapi).
   assert (p' = pl) as -> by congruence. clear Hl'.
@@ -822,7 +822,6 @@ Proof.
         rewrite lookup_insert_ne in He2 by done. by destruct (Hnone y2 e2 He2).
   - (* requested ranges *)
     rewrite <- Er in *. cbv zeta in Hf.
-    assert (pd_ranges p ≠ []) as Hne by (rewrite Er; done). specialize (Hcommon Hne). unfold owned_in_ranges in Hcommon.
     set (slots0 := by_key_ranges (w_ipam w) (pod_key p) (pd_ranges p)) in *.
     assert (w1 = w ∧ ∀ y, y ∈ somes slots0 → sn ∈ subnets_of_ip (w_ipam w) y) as [-> Hown].
     { destruct (missing_of slots0 (pd_ranges p)) as [|m0 ms] eqn:Em.
@@ -833,10 +832,8 @@ Proof.
       - apply filter_cont_nodes in Hf as [(-> & Hll)|(Hnil & _)]; [|discriminate Hnil]. split; [done|].
         intros y Hy. destruct Hll as [->| ->]; apply in_filter_node_ok in Hnode as (_ & nip' & sn' & H1 & H2 & H3); [inversion H3|].
         assert (nip' = nip) as -> by congruence. assert (sn' = sn) as -> by congruence.
-        unfold restrict_subnets in H3.
-        destruct (owned_subnets_of (w_ipam w) (somes slots0)) as [|os0 os] eqn:Eos.
-        + exfalso. apply Hcommon; [|done]. intros Hnil. rewrite Hnil in Hy. inversion Hy.
-        + apply elem_of_sn_inter in H3 as [_ H3]. rewrite <- Eos in H3. by eapply owned_subnets_in. }
+        unfold restrict_subnets in H3. destruct (somes slots0) as [|y0 ys] eqn:Eso; [inversion Hy|]. rewrite <- Eso in *.
+        apply elem_of_sn_inter in H3 as [_ H3]. by eapply owned_subnets_in. }
     apply Hfin; try done. intros x Hx. apply elem_of_subnets_of_ip, Hown.
     unfold bind_slots in Hs. rewrite Hrs, <- Hkey in Hs. destruct (pd_ranges p); [done|]. by inversion Hs; subst.
 Qed.
@@ -1087,7 +1084,8 @@ Qed.
 Lemma pair_eq {A B} (q : A * B) a b : q.1 = a → q.2 = b → q = (a, b).
 Proof. destruct q. simpl. by intros -> ->. Qed.
 
-(** * witnesses: statements of C06 that are false for the model (and for the Go code it mirrors) *)
+(** * witnesses: statements of C06 that are (wit1) or were before the repairs F14/F15 (wit2, wit3) false for the model
+      and for the Go code it mirrors *)
 
 (** pool A: 10.100.0.2-4 routable from the subnets of node1 and node2; pool B: 10.101.0.2-3 from those of node1 and node3 *)
 Definition ex_conf2b : list json :=
@@ -1151,8 +1149,9 @@ Proof.
 Qed.
 
 (** witness 2: the pod requests three single addresses; its key holds the first two, which lie in pools without a
-    common node subnet (pools A and B of [ex_conf2]); the third is free in pool A.  Filter drops the empty
-    intersection and offers node1; Bind there returns all three: 10.101.0.2 is not routable from node1 *)
+    common node subnet (pools A and B of [ex_conf2]); the third is free in pool A.  The pinned Filter (F15) dropped
+    the empty intersection and offered node1; Bind there returns all three: 10.101.0.2 is not routable from node1.
+    Repaired (Go commit 07fe1a3): the restriction is never dropped, Filter offers no node *)
 Definition wit2_pod : pod :=
   set_req (mk_pod "ns1" "web-0" "u2" KSts "web" "") 2 (map one_ip [ip4 10 100 0 3; ip4 10 101 0 2; ip4 10 100 0 4]).
 Definition wit2 : world :=
@@ -1161,64 +1160,71 @@ Definition wit2 : world :=
 Lemma wit2_winv : WInv wit2.
 Proof. apply winv_simple; [apply ipam_take_inv2, ipam_init_inv2|apply set_req_wf, mk_pod_wf; reflexivity|done]. Qed.
 
-Lemma bind_routable_refuted_ranges_l :
-  ∃ w p nodes o fl w1 l ns name uid node o2 fl2 w2 ips nip sn pl,
-    WInv w ∧ w_pods w !! (ns, name) = Some p ∧ ranges_disjoint (pd_ranges p) ∧
-    filter_section w p nodes o fl = (w1, FNodes l) ∧ In node l ∧
-    w_lister w1 !! (ns, name) = Some pl ∧ same_static p pl ∧
-    bind_section true true w1 ns name uid node o2 fl2 = (w2, BOk ips) ∧
-    w_nodes w !! node = Some nip ∧ node_subnet (w_ipam w) nip = Some sn ∧
-    ∃ x, x ∈ ips ∧ ip_has_subnet (i_pools (w_ipam w2)) x sn = false.
+(** the restriction of the pinned commit (F15): an EMPTY intersection of the held IPs' subnets was dropped *)
+Definition restrict_old (subnets os : list subnet) : list subnet :=
+  match os with [] => subnets | _ => sn_inter subnets os end.
+
+(** on the tables of [wit2] the old restriction keeps node1's subnet, from which the held IP 10.101.0.2 is not
+    routable; the repaired one ([restrict_subnets _ (Some os)] = [sn_inter _ os]) removes it, and the repaired filter
+    offers no node at all *)
+Lemma bind_routable_refuted_ranges_old_l :
+  ∃ w p node nip sn x,
+    let i := w_ipam w in
+    let slots := by_key_ranges i (pod_key p) (pd_ranges p) in
+    let subnets := node_subnets_by_ranges i (missing_of slots (pd_ranges p)) in
+    let os := owned_subnets_of i (somes slots) in
+    WInv w ∧ w_pods w !! pk p = Some p ∧ ranges_disjoint (pd_ranges p) ∧
+    w_nodes w !! node = Some nip ∧ node_subnet i nip = Some sn ∧
+    x ∈ somes slots ∧ os = [] ∧
+    sn ∈ restrict_old subnets os ∧ sn ∉ restrict_subnets subnets (Some os) ∧
+    ip_has_subnet (i_pools i) x sn = false ∧
+    filter_section w p ex_allnodes no_oracle no_faults = (w, FNodes []).
 Proof.
-  exists wit2, wit2_pod, ex_allnodes, no_oracle, no_faults, wit2, [L "node1"; L "node2"],
-    (L "ns1"), (L "web-0"), (L "u2"), (L "node1"), no_oracle, no_faults.
-  eexists (bind_section true true wit2 (L "ns1") (L "web-0") (L "u2") (L "node1") no_oracle no_faults).1.
-  exists [ip4 10 100 0 3; ip4 10 101 0 2; ip4 10 100 0 4], (ip4 10 1 0 7), (ip4 10 1 0 0, 24), wit2_pod.
+  exists wit2, wit2_pod, (L "node1"), (ip4 10 1 0 7), (ip4 10 1 0 0, 24), (ip4 10 101 0 2). cbv zeta.
   split_and!.
   - apply wit2_winv.
   - vm_compute. reflexivity.
   - apply ranges_disjoint_ones. refine (proj1 (bool_decide_eq_true _) _). vm_compute. reflexivity.
   - vm_compute. reflexivity.
-  - left. reflexivity.
   - vm_compute. reflexivity.
-  - repeat split.
-  - apply pair_eq; [reflexivity|vm_compute; reflexivity].
+  - apply elem_of_list_In. vm_compute. right. left. reflexivity.
+  - vm_compute. reflexivity.
+  - apply sn_in_spec. vm_compute. reflexivity.
+  - intros H. apply sn_in_spec in H. vm_compute in H. discriminate H.
   - vm_compute. reflexivity.
   - vm_compute. reflexivity.
-  - exists (ip4 10 101 0 2). split; [right; left|vm_compute; reflexivity].
 Qed.
 
 (** witness 3 (NodeSubnetsByIPRanges restarts from an empty intersection): fresh tables, three pools with pairwise
     different node subnets, a pod requesting one address of each.  The subnet sets of the first two range lists
-    do not intersect, so the third list's set is taken as the answer: filter offers node3; Bind on node3 fails
-    (no address of the first list is routable from there), although no fault is injected and nothing is stored
-    for another incarnation *)
+    do not intersect, so the pinned code (F14) took the third list's set as the answer: filter offered node3; Bind on
+    node3 failed (no address of the first list is routable from there), although no fault was injected and nothing
+    was stored for another incarnation.  Repaired (Go commit 948e55d): only the first list initialises the set *)
 Definition wit3_pod : pod :=
   set_req (mk_pod "ns1" "web-0" "u2" KSts "web" "") 0 (map one_ip [ip4 10 100 0 2; ip4 10 101 0 2; ip4 10 102 0 2]).
 Definition wit3 : world := simple_world (ipam_init ex_conf3) wit3_pod ex_nodes ∅ ∅.
 Lemma wit3_winv : WInv wit3.
 Proof. apply winv_simple; [apply ipam_init_inv2|apply set_req_wf, mk_pod_wf; reflexivity|done]. Qed.
 
-Lemma filter_then_bind_refuted_l :
-  ∃ w p nodes o fl w1 l ns name node o2 w2,
-    WInv w ∧ w_pods w !! (ns, name) = Some p ∧ pd_node p = [] ∧ ranges_disjoint (pd_ranges p) ∧
-    filter_section w p nodes o fl = (w1, FNodes l) ∧ In node l ∧ w_lister w1 !! (ns, name) = Some p ∧
-    bind_section true true w1 ns name (pd_uid p) node o2 no_faults = (w2, BErr) ∧
-    i_alloc (w_ipam w1) = ∅.
+(** the old intersection ([node_subnets_by_ranges_gen true]) approved node3's subnet, from which the allocation of
+    the request is impossible ([pick_ips] = the pick phase of AllocateInSubnetsAndIPRange); the repaired one approves
+    no subnet and the repaired filter offers no node *)
+Lemma filter_then_bind_refuted_restart_old_l :
+  ∃ i rss sn, Inv2 i ∧ ranges_disjoint rss ∧
+    sn ∈ node_subnets_by_ranges_gen true i rss ∧ sn ∉ node_subnets_by_ranges i rss ∧ pick_ips i sn rss [] = None.
 Proof.
-  exists wit3, wit3_pod, ex_allnodes, no_oracle, no_faults, wit3, [L "node3"], (L "ns1"), (L "web-0"), (L "node3"), no_oracle.
-  eexists (bind_section true true wit3 (L "ns1") (L "web-0") (L "u2") (L "node3") no_oracle no_faults).1.
-  split_and!.
-  - apply wit3_winv.
-  - vm_compute. reflexivity.
-  - reflexivity.
+  exists (w_ipam wit3), (pd_ranges wit3_pod), (ip4 10 3 0 0, 24). split_and!.
+  - apply ipam_init_inv2.
   - apply ranges_disjoint_ones. refine (proj1 (bool_decide_eq_true _) _). vm_compute. reflexivity.
-  - vm_compute. reflexivity.
-  - left. reflexivity.
-  - vm_compute. reflexivity.
-  - apply pair_eq; [reflexivity|vm_compute; reflexivity].
+  - apply sn_in_spec. vm_compute. reflexivity.
+  - intros H. apply sn_in_spec in H. vm_compute in H. discriminate H.
   - vm_compute. reflexivity.
 Qed.
+
+Lemma wit3_filter_now :
+  WInv wit3 ∧ w_pods wit3 !! pk wit3_pod = Some wit3_pod ∧
+  filter_section wit3 wit3_pod ex_allnodes no_oracle no_faults = (wit3, FNodes []).
+Proof. split_and!; [apply wit3_winv|vm_compute; reflexivity|vm_compute; reflexivity]. Qed.
 
 (** * every loaded pool lists at least one node subnet (FloatingIPPool.UnmarshalJSON rejects the others) *)
 Definition pools_routable (i : ipam) : Prop := Forall (λ pl, p_nodesubnets pl ≠ []) (i_pools i).
@@ -1437,7 +1443,6 @@ Lemma bind_routable_w w p nodes o fl w1 l ns name uid node o2 fl2 w2 ips nip sn 
   WInv w → filter_section w p nodes o fl = (w1, FNodes l) → In node l →
   w_lister w1 !! (ns, name) = Some pl → same_static p pl →
   (pd_ranges p = [] → key_single (w_ipam w) (pod_key p)) →
-  (pd_ranges p ≠ [] → owned_in_ranges (w_ipam w) p ≠ [] → owned_subnets_of (w_ipam w) (owned_in_ranges (w_ipam w) p) ≠ []) →
   bind_section true true w1 ns name uid node o2 fl2 = (w2, BOk ips) →
   w_nodes w !! node = Some nip → node_subnet (w_ipam w) nip = Some sn →
   ∀ x, x ∈ ips → ip_has_subnet (i_pools (w_ipam w2)) x sn = true.
@@ -1484,6 +1489,30 @@ Proof.
   rewrite elem_of_app, IH, elem_of_list_In, filter_In, <- elem_of_list_In, elem_of_elements, orb_true_iff. naive_solver.
 Qed.
 
+(** the repaired intersection: an approved subnet has, in EVERY requested range list, a free address routable from it *)
+Lemma subnets_by_ranges_false_in s sn : ∀ rss first acc, sn ∈ subnets_by_ranges_gen false s rss first acc →
+  (first = false → sn ∈ acc) ∧
+  ∀ rs, rs ∈ rss → ∃ x, x ∈ i_unalloc s ∧ in_ranges rs x = true ∧ ip_has_subnet (i_pools s) x sn = true.
+Proof.
+  induction rss as [|rs rest IH]; intros first acc H; cbn [subnets_by_ranges_gen] in H.
+  { split; [done|]. intros rs Hrs. inversion Hrs. }
+  destruct (free_in_ranges s rs) as [|f0 fr] eqn:Efr; [inversion H|]. rewrite <- Efr in H. cbv zeta in H.
+  cbn [andb] in H. rewrite orb_false_r in H. apply IH in H as [Hacc Hrest]. specialize (Hacc eq_refl).
+  assert (sn ∈ subnets_of_ips s (free_in_ranges s rs) ∧ (first = false → sn ∈ acc)) as [Hpart Ha].
+  { destruct first; [split; [done|discriminate]|]. apply elem_of_list_In, filter_In in Hacc as [H1 H2].
+    split; [by apply sn_in_spec|intros _; by apply elem_of_list_In]. }
+  split; [done|]. intros rs' Hrs'. apply elem_of_cons in Hrs' as [->|Hrs']; [|by apply Hrest].
+  apply elem_of_subnets_of_ips in Hpart as (x & Hx & Hxsn). apply elem_of_free_in_ranges in Hx as [Hx Hxin]. by exists x.
+Qed.
+
+Lemma elem_of_node_subnets_by_ranges s rss sn : sn ∈ node_subnets_by_ranges s rss →
+  ∀ rs, rs ∈ rss → ∃ x, x ∈ i_unalloc s ∧ in_ranges rs x = true ∧ ip_has_subnet (i_pools s) x sn = true.
+Proof.
+  intros H rs Hrs. destruct rss as [|rs0 rss0] eqn:E; [inversion Hrs|]. rewrite <- E in *.
+  unfold node_subnets_by_ranges, node_subnets_by_ranges_gen in H. rewrite E in H. rewrite <- E in H.
+  by apply (subnets_by_ranges_false_in _ _ _ _ _ H).
+Qed.
+
 Lemma alloc_ranges_one s key sn rs a x : Inv2 s → x ∈ i_unalloc s → in_ranges rs x = true →
   ip_has_subnet (i_pools s) x sn = true → ∃ s' ip, alloc_ranges s key sn [rs] a None = (s', AOk, [ip]).
 Proof.
@@ -1520,10 +1549,8 @@ Proof.
     apply filter_cont_nodes in Hf as [(-> & Hll)|(Hnil & _)]; [|discriminate Hnil]. split; [done|].
     destruct Hll as [->| ->]; apply in_filter_node_ok in Hnode as (_ & nip & sn & H1 & H2 & H3); [inversion H3|].
     assert (sn ∈ node_subnets_by_ranges (w_ipam w) [rs]) as Hin.
-    { unfold restrict_subnets in H3. destruct (owned_subnets_of _ _); [done|]. by apply elem_of_sn_inter in H3 as [? _]. }
-    cbn [node_subnets_by_ranges subnets_by_ranges_from] in Hin.
-    destruct (free_in_ranges (w_ipam w) rs) as [|f0 fr] eqn:Efr; [inversion Hin|]. rewrite <- Efr in Hin.
-    apply elem_of_subnets_of_ips in Hin as (x & Hx & Hxsn). apply elem_of_free_in_ranges in Hx as [Hx Hxin].
+    { unfold restrict_subnets in H3. destruct (somes _); [done|]. by apply elem_of_sn_inter in H3 as [? _]. }
+    destruct (elem_of_node_subnets_by_ranges _ _ _ Hin rs) as (x & Hx & Hxin & Hxsn); [left|].
     by exists nip, sn, x. }
   set (slots := by_key_ranges (w_ipam w) (pod_key p) (pd_ranges p)) in *.
   rewrite bind_section_unfold, Hl, f2_guard_self in Hb.
